@@ -121,14 +121,108 @@ def shards(tier, seed):
     n = 16
     out = [{'part': 'zones', 'slice': [i, n], 'which': 'recent' if tier == 'quick' else 'all'} for i in range(n)]
     out.append({'part': 'map'})
+    out.append({'part': 'cold-start', 'rounds': 12 if tier == 'quick' else 120})
     out.append({'part': 'foreign', 'step': 15 if tier == 'quick' else 1})
     return out
+
+
+def cold_start(spec, ctx):
+    """First use of the zone tables from several threads at once (the tables are built lazily): every thread's first
+    round trip must already be right.  The module is reloaded before each round (cold tables) and a LINE hook yields
+    inside hszinc/zoneinfo.py so that threads really overlap in the build."""
+    import importlib
+    import sys
+    import threading
+    import time
+    import hszinc
+    from hszinc import zoneinfo
+    mon = sys.monitoring
+    names = ['Zurich', 'Brisbane', 'New_York', 'Kolkata', 'Tokyo', 'London', 'Sao_Paulo', 'Vancouver', 'Nairobi', 'Amsterdam', 'Adelaide',
+             'Chicago']
+    hits = [0]
+
+    def on_line(code, line):
+        hits[0] += 1
+        if hits[0] % 3 == 0:
+            time.sleep(0)
+    try:
+        mon.use_tool_id(5, 'vf-c17')
+    except ValueError:
+        pass
+    mon.register_callback(5, mon.events.LINE, on_line)
+    old_interval = sys.getswitchinterval()
+    sys.setswitchinterval(1e-5)
+    instrumented = []
+    seen_ids = set()
+
+    def instrument():
+        for obj in list(vars(zoneinfo).values()):
+            co = getattr(obj, '__code__', None)
+            # (code objects compare by value: a reloaded function's code equals the old one, so key on identity)
+            if co is not None and co.co_filename == zoneinfo.__file__ and id(co) not in seen_ids:
+                mon.set_local_events(5, co, mon.events.LINE)
+                seen_ids.add(id(co))
+                instrumented.append(co)
+    r = random.Random(ctx.seed * 1000003 + 1717)
+    try:
+        instrument()
+        for rnd in range(spec['rounds']):
+            importlib.reload(zoneinfo)          # cold zone tables; functions imported elsewhere share the module globals
+            instrument()
+            zs = r.sample(names, 6)
+            results = [None] * len(zs)
+            barrier = threading.Barrier(len(zs))
+
+            def body(i, Z):
+                try:
+                    tz = pytz.timezone(tzref.full_name(Z))
+                    t = datetime.datetime(2021, 3, 28, 0, 30, 0, 123456) + datetime.timedelta(hours=i)
+                    barrier.wait(timeout=20)
+                    out = []
+                    for mode, mname in ((hszinc.MODE_ZINC, 'zinc'), (hszinc.MODE_JSON, 'json')):
+                        out.append(rt_one(_NullCtx(), hszinc, Z, tz, t, mode, mname))
+                    results[i] = out
+                except BaseException as e:   # noqa
+                    results[i] = [('thread-raises:' + type(e).__name__, str(e)[:100])]
+            ths = [threading.Thread(target=body, args=(i, Z), daemon=True) for i, Z in enumerate(zs)]
+            for th in ths:
+                th.start()
+            for th in ths:
+                th.join(timeout=60)
+            ctx.case('cold-start', rnd, zs)
+            ctx.count('cold-start rounds (threads race on the first use of the zone tables)')
+            for Z, res in zip(zs, results):
+                if res is None:
+                    ctx.inconc('cold-start thread did not finish')
+                    continue
+                for x in res:
+                    if x:
+                        ctx.violation({'part': 'cold-start', 'kind': 'dt', 'symptom': x[0], 'features': ['threads=%d' % len(zs)]},
+                                      'first use of the zone tables from %d threads at once: zone %s: %s' % (len(zs), Z, x[1]),
+                                      {'cold_start': True})
+        ctx.count('cold-start line-hook hits', hits[0])
+    finally:
+        sys.setswitchinterval(old_interval)
+        mon.set_events(5, 0)
+        for co in instrumented:
+            try:
+                mon.set_local_events(5, co, 0)
+            except Exception:
+                pass
+    ctx.sample({'cold_start': {'rounds': spec['rounds'], 'threads': 6, 'line_hook_hits': hits[0]}})
+
+
+class _NullCtx(object):
+    def count(self, *a, **k):
+        pass
 
 
 def run_shard(spec, ctx):
     import hszinc
     from hszinc import zoneinfo
     from vf import hs
+    if spec['part'] == 'cold-start':
+        return cold_start(spec, ctx)
     zones = hs.mapped_zones()
     if spec['part'] == 'map':
         tzmap = zoneinfo.get_tz_map()
@@ -324,6 +418,8 @@ def replay(case, ctx):
         if res:
             ctx.violation({'part': 'zone-roundtrip', 'format': case['mode'], 'kind': 'dt', 'symptom': res[0],
                            'features': [classify(tz, t)]}, res[1], case)
+    elif case.get('cold_start'):
+        cold_start({'rounds': 30}, ctx)
     else:
         run_shard({'part': 'foreign', 'step': 15}, ctx)
 
